@@ -23,7 +23,8 @@ RULE = ('exhaustive small scope: get_spans through Field.get_spans / Session.get
         'columns of K..3K+1 rows with value changes planted at rows K-1, K, K+1, 2K-1, 2K, 2K+1, 3K (and none at all) '
         'through every one-column entry point, pairs of such columns through fields=(Field,Field) / (ndarray,ndarray), '
         'random run layouts around K, and min / max / first / last / index_of_min / index_of_max (kernel, Session, Field) '
-        'with the extreme rows (and ties) at / next to K and 2K and spans that straddle, start or end at them. '
+        'with the extreme rows (and ties) at / next to K and 2K and spans that straddle, start or end at them; for small '
+        'new literals K <= 2048 also explicit K+1 / 2K+2-row tables through _get_spans_for_multi_fields / check_if_sorted. '
         'Non-trivial = the case reaches a planted feature (see features).')
 EXHAUSTIVE = {'quick': True, 'thorough': True}
 TRUSTED = ['numpy element-wise `!=`, `<`, `>` on int/float/bool/S arrays and numba\'s charseq comparisons are the exact '
@@ -850,7 +851,7 @@ def _gen_rle(tier, rng):
             kinds = RLE_KINDS if every else [RLE_KINDS[(t + j) % len(RLE_KINDS)] for j in ((0, 3) if K < 1 << 22 else (0,))]
             for k in kinds:
                 if not _rle_fits(k, n):
-                    k = 'int8' if not every else None
+                    k = None if every else [x for x in (['bool', 'cat', 'fixed'][t % 3], 'int8') if _rle_fits(x, n)][0]
                 if k is None:
                     continue
                 t += 1
@@ -968,6 +969,34 @@ def summarize(recs):
                              'new_literals_too_large_to_plant': unreachable_sizes()}}
 
 
+def _gen_hot_rows(tier):
+    """the per-row njit kernels that take 2-D input (multi-field spans, sortedness) on explicit columns of K+1 / 2K+2
+    rows for every SMALL new literal K of the tree under test (statement-level model; nothing on the unchanged tree)."""
+    for K in hot.hot_sizes():
+        if not 4 <= K <= 2048:
+            continue
+        for n in (K + 1, 2 * K + 2):
+            marks = [{K: 1}, {K - 1: 1}, {K + 1: 1}, {K - 1: 1, K: 2, K + 1: 3}, {}]
+            if n > 2 * K:
+                marks += [{2 * K: 1}, {K: 1, 2 * K: 2, 2 * K + 1: 3}]
+            cols = []
+            for m in marks:                         # non-decreasing columns: value = number of marks passed
+                col, v = [], 0
+                for i in range(n):
+                    if i in m: v += 1
+                    col.append(v)
+                cols.append(col)
+            const = [0] * n
+            for c in cols:
+                for k in ('int32', 'float64'):
+                    yield {'op': 'multi', 'k': k, 'w': 3, 'cols': [c]}
+                    yield {'op': 'multi', 'k': k, 'w': 3, 'cols': [const, c]}
+                    yield {'op': 'sorted', 'k': k, 'w': 3, 'cols': [const, c]}
+                unsorted = list(c); unsorted[min(K, n - 1)] = -1
+                yield {'op': 'sorted', 'k': 'int32', 'w': 3, 'cols': [const, unsorted]}
+            yield {'op': 'multi', 'k': 'int32', 'w': 3, 'cols': [cols[0], cols[1]]}
+
+
 RLE_STRIDE = 48      # one large case after this many small ones: spreads them over the worker batches
 
 
@@ -979,7 +1008,7 @@ def gen(tier, rng):
         return
     larges = itertools.chain.from_iterable(itertools.zip_longest(
         _gen_rle(tier, random.Random(rng.getrandbits(64))), _gen_rle_apply(tier, rng)))
-    larges = (c for c in larges if c is not None)
+    larges = itertools.chain((c for c in larges if c is not None), _gen_hot_rows(tier))
     n = 0
     for c in _gen_small(tier, rng):
         yield c
